@@ -568,6 +568,10 @@ class TreeGen:
             name, nsattr = self.pfx() + ":" + l, (self.uri() if r.random() < 0.9 else "")
         if self.style == "weird" and r.random() < 0.05:
             name = r.choice(["xmlns", "xml:lang" if "xml" in self.weird_pool else "xmlq", "xmlns:" + l])
+        if self.style == "weird" and "xml" in self.weird_pool and r.random() < 0.06:
+            # the generic re-creation idiom name="{name()}" namespace="{namespace-uri()}" applied to xml:lang / xml:space:
+            # the reserved prefix asked for together with ITS namespace
+            name, nsattr = r.choice(["xml:lang", "xml:space", "xml:" + l]), XMLNS
         return {"k": "attr", "name": name, "nsattr": nsattr, "ns": ns, "avt": r.random() < 0.3, "val": r.randrange(4, 13)}
 
     def node(self, scope, depth, frozen=frozenset(), exuris=frozenset()):
